@@ -458,7 +458,8 @@ def gen_sampler(rng, p, nom, kinds, nan_radius=None):
         if rng.random() < 0.2:
             a, b = b, a
         return {'kind': 'range', 'start': a, 'end': b, 'steps': steps}
-    seed = rng.randrange(1, 10 ** 6) if rng.random() < 0.85 else None
+    u = rng.random()
+    seed = None if u >= 0.85 else 0 if u < 0.15 else rng.randrange(1, 10 ** 6)      # seed 0 is a seed
     if rng.random() < 0.5:
         return {'kind': 'dist', 'distribution': 'normal', 'seed': seed, 'params': {'loc': nom, 'scale': h / 2}}
     return {'kind': 'dist', 'distribution': 'uniform', 'seed': seed, 'params': {'low': nom - h, 'high': nom + h}}
